@@ -117,16 +117,31 @@ def setup_env() -> None:
         sys.path.insert(0, VERIF_DIR)
 
 
-def limit_memory(gb: float = 28.0) -> None:
-    """cap the address space of a worker so that a runaway allocation in the code under test (e.g. an
-    unbounded dimension search) fails inside that worker instead of getting the whole run OOM-killed"""
-    try:
-        import resource
+def limit_memory(gb: float = 14.0) -> None:
+    """Guard against a runaway allocation in the code under test (e.g. an unbounded dimension search
+    once grew a worker to 30 GB and the OOM killer took it): a daemon thread polls this worker's
+    resident set size and ends the worker when it exceeds the cap. The parent notices the dead worker
+    and reports a harness error for that shard instead of hanging. (A limit on the address space is not
+    used: XLA's JIT maps far more virtual memory than it touches and aborts under RLIMIT_AS.)"""
+    import threading
 
-        lim = int(gb * 2**30)
-        resource.setrlimit(resource.RLIMIT_AS, (lim, lim))
-    except Exception:
-        pass
+    page = os.sysconf("SC_PAGE_SIZE")
+    cap = gb * 2**30
+
+    def watch():
+        while True:
+            try:
+                with open("/proc/self/statm") as f:
+                    rss = int(f.read().split()[1]) * page
+                if rss > cap:
+                    sys.stderr.write(f"pw_verif worker {os.getpid()}: resident set {rss / 2**30:.1f} GB exceeds {gb} GB cap - exiting\n")
+                    sys.stderr.flush()
+                    os._exit(97)
+            except Exception:
+                pass
+            time.sleep(0.5)
+
+    threading.Thread(target=watch, daemon=True).start()
 
 
 def setup_jax() -> None:
@@ -230,7 +245,7 @@ def worker(args: dict) -> dict:
     )
     try:
         setup_jax()
-        limit_memory(float(os.environ.get("PW_VERIF_MEM_GB", "28")))
+        limit_memory(float(os.environ.get("PW_VERIF_MEM_GB", "14")))
         import hypothesis
         from hypothesis import HealthCheck, Phase, given, settings
 
@@ -250,6 +265,18 @@ def worker(args: dict) -> dict:
 
         def execute(case, count=True):
             """returns None or a Violation that is new (not known, not a swallowed bucket)"""
+            state["exec_n"] = state.get("exec_n", 0) + 1
+            if state["exec_n"] % 400 == 0:
+                # long runs compile thousands of shapes: drop jax's in-memory executables now and then
+                try:
+                    import gc
+
+                    import jax
+
+                    jax.clear_caches()
+                    gc.collect()
+                except Exception:
+                    pass
             try:
                 info = run_with_watchdog(mod, case, watchdog)
             except CaseTimeout:
